@@ -31,6 +31,7 @@ McPick ==
        /\ e.enabled = EnabledList(e.w)        \* complete list of enabled channels, increasing
        /\ e.sameEnabled
        /\ e.calls = Len(e.js)
+       /\ ("sumOk" \in DOMAIN e) => e.sumOk = 1    \* the recorded weights are the normalised ones (the probabilities are the recorded weights)
     /\ l' = l + 1
 
 Count ==
@@ -80,7 +81,9 @@ PickTop ==
        /\ e.idx[1] = e.lead + 1                                        \* the largest value below one
        /\ \A k \in 2 .. 5 : e.idx[k] = e.lead                          \* its two predecessors, zero and the smallest positive number
     /\ l' = l + 1
-Next == Pick \/ McPick \/ Count \/ PickAny \/ PickWide \/ PickTop
+\* the selector normalises what it is given: its probabilities are the weights a result records only if those sum to one (n weights: n roundings)
+McNorm == /\ l <= TraceLen /\ TheTrace[l].e = "McNorm" /\ TheTrace[l].devEps <= 4 * TheTrace[l].n + 4 /\ l' = l + 1
+Next == Pick \/ McPick \/ Count \/ PickAny \/ PickWide \/ PickTop \/ McNorm
 Spec == Init /\ [][Next]_vars
 TraceAccepted == TraceAcceptedBy(TraceLen)
 =============================================================================
